@@ -394,7 +394,7 @@ def c09_instant(F):
 def c15_step(F):
     """routing obeys the policy answers; FIRST_AVAILABLE takes the lowest-index edge whose token is granted"""
     for ev in F.events[getattr(F, "_c15_seen", 0):]:
-        kind, t, e, n, rec, tok = ev
+        kind, t, e, n, rec, tok = ev[:6]
         if kind not in ("put", "get") or n is None or n.__class__.__name__ in ("Sink",):
             continue
         side = "out" if kind == "put" else "in"
@@ -759,3 +759,74 @@ def c18_final(F, T):
             exp = integ / T
             if not (abs(val - exp) <= 1e-9):
                 F.soft(f"C18:time-averaged-occupancy-differs-from-integral-over-T@{cls}", {"reported": float(val), "expected": float(exp)})
+
+
+# ---------------------------------------------------------------------------------------------
+# C20: product of component combinations;  Source -> E1 -> Machine -> E2 -> Sink
+
+
+def combo(props=("C20",), e1="buffer", e2="buffer", w=1, blocking=True, src_blocking=True, in_sel="FIRST_AVAILABLE", out_sel="FIRST_AVAILABLE",
+          src_sel=0, n_items=3, n_src=1, n_out=1, order="edges-last", sym=("iat", "pd"), twin=False, cap1=2, cap2=2, fdelay="sym", acc=1):
+    """all delays range over [0, d] so that zero delays and ties are reachable"""
+    def fn(ctx):
+        from factorysimpy.nodes.source import Source
+        from factorysimpy.nodes.machine import Machine
+        from factorysimpy.nodes.sink import Sink
+        F = Factory(ctx, props)
+        env = F.env
+        F.edge_delays = {}
+        F.sel_answers = {}
+        F.sel_moves = {}
+        F.routing = {}
+        F.last_out_choice = {}
+        F.src_gaps = {}
+        F.discards = lambda n: n.stats.get("num_item_discarded", 0)
+        iat = ctx.real("iat", 0 if src_blocking else 0.25, 2) if "iat" in sym else 1
+        pd = ctx.real("pd", 0, 2) if "pd" in sym else 1
+        ed = ctx.real("ed", 0, 2) if "ed" in sym else 0
+        if fdelay == "sym" and ("fleet" in (e1, e2)):
+            # zero, or at least half a time unit (an arbitrarily small period would mean unboundedly many timer events)
+            fd = 0 if ctx.choice(2, "fleet-delay-zero?") else ctx.real("fd", 0.5, 2)
+        else:
+            fd = 1
+        ft = ctx.real("ft", 0, 1) if "ft" in sym else 0.5
+        kw = dict(fdelay=fd, transit=ft, acc=acc)
+
+        def mk_edges():
+            ins = [_edge(F, e1, f"IN{i}", cap1, ed, **kw) for i in range(n_src)]
+            outs = [_edge(F, e2, f"OUT{j}", cap2, ed, **kw) for j in range(n_out)]
+            return ins, outs
+
+        def mk_nodes():
+            m = F.add_node(Machine(env, "M", work_capacity=w, processing_delay=pd, blocking=blocking, in_edge_selection=in_sel, out_edge_selection=out_sel))
+            srcs = [F.add_node(Source(env, f"S{i}", inter_arrival_time=F.delay_source(f"S{i}", [iat] * n_items, "generator"), blocking=src_blocking,
+                                      out_edge_selection=src_sel)) for i in range(n_src)]
+            sinks = [F.add_node(Sink(env, f"K{j}")) for j in range(n_out)]
+            return m, srcs, sinks
+        if order == "edges-first":
+            ins, outs = mk_edges()
+            m, srcs, sinks = mk_nodes()
+        else:
+            m, srcs, sinks = mk_nodes()
+            ins, outs = mk_edges()
+        for i in range(n_src):
+            ins[i].connect(srcs[i], m)
+        for j in range(n_out):
+            outs[j].connect(m, sinks[j])
+        F.step_hooks.append(mon_capacity)
+        # monotone simulated time (side assertion, see DESIGN.md §10)
+        last = {"t": 0}
+
+        def mono(F):
+            if F.env.now < last["t"]:
+                F.soft("C20:simulated-time-decreased", {})
+            last["t"] = F.env.now
+        F.step_hooks.append(mono)
+        periodic = any(k in ("fleet", "sconv") for k in (e1, e2))
+        F.run(until=(n_items * 2 + 12) if periodic else None, per_instant=1200, max_steps=8000)
+        ctx.hit("C20:run-completed")
+        ctx.log("recv", tuple(k.stats["num_item_received"] for k in sinks), "gen", tuple(s.stats["num_item_generated"] for s in srcs))
+        ctx.hit("complete")
+        if twin:
+            ctx.fail("TWIN:reached-end")
+    return fn
